@@ -132,6 +132,7 @@ def decimal_const(prog, fn, o):
 
 def run(prog, rep, tier='quick', config='default'):
     r2j(prog, rep)
+    r2k(prog, rep)
     # ------------------------------------------------------------------ R2a
     wfns = {}
     for fn in prog.product_fns():
@@ -451,6 +452,84 @@ def run(prog, rep, tier='quick', config='default'):
             rep.violation('R2e', 'anchor-lost:force-reads', fn=val.name, detail='anchor lost: no read of SFLInput.force in the bookkeeping')
         if hits == 0:
             rep.violation('R2d', 'anchor-lost:tolerance-comparison', fn=val.name, detail='anchor lost: comparison of |computed - specified| with a Decimal constant')
+
+
+def r2k(prog, rep):
+    """every capital loss is examined: in the ledger step the superficial-loss examination of a sale is entered exactly when the
+    computed capital gain converts to a strictly negative decimal (`NegDecimal::try_from(gain)` is Ok) — the value tested is that
+    conversion and nothing else, and no other comparison of amounts decides whether the examination runs (a loss that exists only
+    because of the commission, or only after currency conversion, is a loss)"""
+    from props import anchors
+    ls, root = anchors.ledger_step(prog), anchors.sfl_validation(prog)
+    if not rep.anchor('ledger step and superficial-loss examination (R2k)', ls and root):
+        return
+    NEG_TF = r'ConstrainedDecimal<(util::decimal::constraint::)?Neg>'
+
+    def pure_conversion(g, l, depth=0, seen=None):
+        """local l of g holds (a Result / Option made from) NegDecimal::try_from(x) and nothing else"""
+        seen = seen if seen is not None else set()
+        if (g.name, l) in seen or depth > 6:
+            return False
+        seen.add((g.name, l))
+        defs = [d for d in g.defs.get(l, []) if not d[3]['dst']['p']]
+        if not defs:
+            return False
+        for (bb, idx, kind, node) in defs:
+            if kind == 'stmt':
+                r = node['r']
+                if r['rv'] in ('use', 'ref') and (is_place(r['ops'][0]) if r['rv'] == 'use' else True):
+                    src = r['ops'][0]['pl'] if r['rv'] == 'use' else r['pl']
+                    if [e for e in src['p'] if isinstance(e, dict)]:
+                        return False
+                    if not pure_conversion(g, src['l'], depth + 1, seen):
+                        return False
+                    continue
+                return False          # a literal None / Err / Some: not the conversion
+            c = g.call_at[bb]
+            if c.short == 'try_from' and re.search(NEG_TF, g.ty.get(c.dst['l'], '') or ''):
+                continue
+            if c.short in ('ok', 'as_ref', 'clone', 'cloned', 'copied') and c.args and is_place(c.args[0]) and not c.args[0]['pl']['p']:
+                if not pure_conversion(g, c.args[0]['pl']['l'], depth + 1, seen):
+                    return False
+                continue
+            h = prog.resolve(c.callee, g.crate)
+            if h is not None and h.kind in ('Fn', 'AssocFn') and re.search(NEG_TF, h.ty.get(0) or ''):
+                if not pure_conversion(h, 0, depth + 1, seen):
+                    return False
+                continue
+            return False
+        return True
+    calls = [c for c in ls.calls if c.callee == root.name]      # on an inline view the spliced call is still listed, at its own block
+    if not rep.anchor('call of the superficial-loss examination in the ledger step', calls):
+        return
+    for n, c in enumerate(calls, 1):
+        loss_tests, amount_tests = [], []
+        for (sbb, discr, vals, neg) in ls.conditions_at(c.bb):
+            d = mir.provenance(ls, discr, follow_all_call_args=False)
+            dl = mir.op_local(discr) if isinstance(discr, dict) and 'k' in discr else None
+            dd = ls.single_def(dl) if dl is not None else None
+            tested = dd[3]['r']['pl']['l'] if dd and dd[2] == 'stmt' and dd[3]['r']['rv'] == 'discr' and not [e for e in dd[3]['r']['pl']['p'] if isinstance(e, dict)] else None
+            if tested is not None and re.search(NEG_TF, ls.ty.get(tested, '') or ''):
+                loss_tests.append((sbb, tested, vals))
+                continue
+            cmps = [x for x in d.calls if re.search(r'PartialOrd::(lt|le|gt|ge)$|PartialEq::(eq|ne)$|Decimal::(is_zero|is_sign_negative|is_sign_positive)$|::is_negative$|::is_positive$', x.decl + ' ' + x.callee)
+                    and any(re.search(r'Decimal', ls.ty.get(a, '') or '') for a in x.arg_locals())]
+            if cmps:
+                amount_tests.append((sbb, cmps[0]))
+        k = 'loss-examined-iff-gain-is-negative#%d' % n
+        if not loss_tests:
+            rep.violation('R2k', k, where=c.where(), fn=ls.name,
+                          detail='the superficial-loss examination is not entered on the outcome of NegDecimal::try_from(capital gain)')
+        elif not all(pure_conversion(ls, t) for (_, t, _) in loss_tests):
+            rep.violation('R2k', k, where=c.where(), fn=ls.name,
+                          detail='whether a sale counts as a loss is not decided by the sign of the computed capital gain alone: the tested value is '
+                                 'produced by something that can answer "no loss" for other reasons (e.g. a price comparison that ignores the commission)')
+        elif amount_tests:
+            sbb, x = amount_tests[0]
+            rep.violation('R2k', k, where=x.where(), fn=ls.name,
+                          detail='the superficial-loss examination also depends on a comparison of amounts (%s): a capital loss can escape it' % short(x.callee))
+        else:
+            rep.ok('R2k', k, where=c.where(), fn=ls.name, detail='entered exactly on the Ok outcome of NegDecimal::try_from(capital gain); no other amount comparison on the way')
 
 
 def r2j(prog, rep):
